@@ -267,26 +267,38 @@ KEY_STRANDED = "parked-behind-undecryptable-head"
 
 
 def _parked_undecryptable(evs, at, g):
-    """input/observation shape of the stranding defect: before the rejected `quiet` line an entry that V can never open
-    (not an honest envelope, or an honest one sealed at or before the announced counter) arrived in that group and was
-    never emitted"""
-    k0, sealed, emitted, arrived = {}, {}, set(), []
+    """input/observation shape of the stranding defect: at the rejected `quiet` line an honest entry of device d that V
+    can open is undelivered, and an entry V can never open (forged / damaged body / sealed at or before the announced
+    counter) that names the same device with a counter not above it arrived in that group and was never emitted"""
+    k0, sealed, emitted, arrived, named = {}, {}, set(), [], {}
+    tbase = None
     for e in evs[:at]:
         if e["ev"] == "seal":
             sealed[e["e"]] = e
+        elif e["ev"] == "forge" and e.get("hs") == g:
+            named[e["e"]] = (e["dv"], e["ct"])
+        elif e["ev"] == "tamper" and e["fld"] in ("body", "e_body"):
+            tbase = sealed.get(e["base"])
         elif e["ev"] == "key" and e["known"]:
             k0.setdefault((e["g"], e["dv"]), e["k0"])
         elif e["ev"] == "emit":
             emitted.add(e["e"])
         elif e["ev"] == "arrive" and e["g"] == g:
             arrived += e["ents"]
+    blockers, waiting = [], []
     for x in arrived:
         if x["e"] in emitted:
             continue
         h = sealed.get(x["hon"])
-        if h is None or h["g"] != g or h["k"] <= k0.get((g, h["dv"]), 0):
-            return True
-    return False
+        if h is not None and h["g"] == g and x["e"] == x["hon"] and (g, h["dv"]) in k0 and h["k"] > k0[(g, h["dv"])]:
+            waiting.append((h["dv"], h["k"]))
+        elif h is not None and h["g"] == g:
+            blockers.append((h["dv"], h["k"]))          # honest, sealed before the announcement (or re-posted)
+        elif x["e"].split("_")[0] in named:
+            blockers.append(named[x["e"].split("_")[0]])
+        elif x["e"].startswith("t") and tbase is not None and tbase["g"] == g:
+            blockers.append((tbase["dv"], tbase["k"]))
+    return any(bd == wd and bk <= wk for (bd, bk) in blockers for (wd, wk) in waiting)
 
 
 def _judge_msg(ctx, scripts, events, name):
@@ -531,7 +543,7 @@ def _feat(tm):
 def _meta_scripts(ctx, quick, cases, pairs):
     rng = ctx.rng
     scripts, counts = [], {}
-    per_world = 10 if quick else 60
+    per_world = 10 if quick else 250
     length = 10 if quick else 14
     for world in ("mm", "acct", "contact"):
         pool = _world_pool(world, cases)
@@ -565,7 +577,7 @@ def _meta_scripts(ctx, quick, cases, pairs):
             scripts.append(_meta_script(rng, world, terms[:length + 2], shuffle=True))
             counts[world + "_blind"] = counts.get(world + "_blind", 0) + 1
     # the model's two-delivery histories (multi-member world, creator holds the group key)
-    npairs = 12 if quick else 80
+    npairs = 12 if quick else 300
     pick = _stratified(rng, pairs, lambda p: tuple(_feat(t)[:6] for t in p), npairs * 4)
     for j in range(0, len(pick), 4):
         terms = [t for p in pick[j:j + 4] for t in p]
